@@ -359,8 +359,11 @@ theorem deserializeFrom_no_fault (b : Bytes) (n readLen : Nat) (h : readLen ≤ 
       exact nf
 
 theorem deserializeCellBlocks_no_fault (b : Bytes) (n : Nat) :
-    (deserializeCellBlocks b n).isFault = false :=
-  deserializeFrom_no_fault b n 0 (Nat.zero_le _)
+    (deserializeCellBlocks b n).isFault = false := by
+  unfold deserializeCellBlocks
+  split
+  · rfl
+  · exact deserializeFrom_no_fault b n 0 (Nat.zero_le _)
 
 /-! ### streams of cells -/
 
@@ -373,6 +376,17 @@ theorem encodeCell_length (c : Cell) :
     (encodeCell c).length
       = 24 + c.row.length + c.family.length + c.qualifier.length + c.value.length := by
   simp only [encodeCell, appendCellblock_eq_layout, layout_length]
+
+/-- `n` encoded cells occupy at least `minCellLen * n` bytes: the count guard of
+`deserializeCellBlocks` never refuses what the encoder wrote. -/
+theorem flatMap_encodeCell_length_ge (cells : List Cell) :
+    minCellLen * cells.length ≤ (cells.flatMap encodeCell).length := by
+  induction cells with
+  | nil => simp
+  | cons c cs ih =>
+    simp only [List.flatMap_cons, List.length_append, List.length_cons, encodeCell_length]
+    simp only [minCellLen] at ih ⊢
+    omega
 
 theorem decode_encodeCell (c : Cell) (rest : Bytes) (hv : c.Valid)
     (htot : (encodeCell c).length < 2 ^ 32) :
